@@ -26,7 +26,7 @@ var c19Settings = []c19Setting{
 	{"root", "PS3NETSRV_ROOT", []string{"/nonexistent/dir/for/verif"}},
 	{"listen-addr", "PS3NETSRV_LISTEN_ADDR", nil},
 	{"allow-write", "PS3NETSRV_ALLOW_WRITE", nil},
-	{"client-whitelist", "PS3NETSRV_CLIENT_WHITELIST", []string{"not-an-address", "10.0.0.0/99", "10.0.0.9-10.0.0.1", ""}},
+	{"client-whitelist", "PS3NETSRV_CLIENT_WHITELIST", []string{"not-an-address", "10.0.0.0/99", "10.0.0.9-10.0.0.1", "", "127.0.0.1-127.0.0.9-127.0.0.200", "127.0.0.0/8/24", "127.0.0.1,10.0.0.1"}},
 	{"max-clients", "PS3NETSRV_MAX_CLIENTS", []string{"many", ""}},
 	{"read-timeout", "PS3NETSRV_READ_TIMEOUT", []string{"soon", ""}},
 	{"debug", "PS3NETSRV_DEBUG", nil},
